@@ -36,6 +36,13 @@ def bpsAfter (env : Env) (fuel : Nat) (loaded : Machine) (w : World) (bps0 : Lis
   | .fuel _ d _ _ _ => some d.bps
   | .panic _ => none
 
+/-- What is compared of a normal-mode `break list`: the table itself, from its first `┌` to its
+last `┘` (nothing when there is no table). The heading line and the "no breakpoints" notice —
+wording, category symbol — are free text that no property specifies. -/
+def cutTable (cs : List Char) : List Char :=
+  let rest := cs.dropWhile (· != '┌')
+  (rest.reverse.dropWhile (· != '┘')).reverse
+
 def showTables (ts : List String) : String := if ts.isEmpty then "-" else ",".intercalate ts
 
 /-- SPEC: the table according to the generator: word `i` of the image was produced by the
@@ -78,7 +85,7 @@ def handleBpt (toks : List String) : String :=
           | some bps =>
             match breakListNormal view bps with
             | .error _ => "panic"
-            | .ok out => charsHex (breakListSeen out)
+            | .ok out => charsHex (cutTable (breakListSeen out))
         let specOk := r.orig == orig && r.texts.length == img.words.length
         let senv : Env := { specEnv r with minimal := false }
         let sbps0 := r.breaks.map (BitVec.ofNat 16)
@@ -89,7 +96,7 @@ def handleBpt (toks : List String) : String :=
         let stabs := if !specOk then [] else ks.map fun k =>
           match bpsAfter senv r.fuel loaded w sbps0 r.cmds k with
           | none => "panic"
-          | some bps => charsHex (breakListSeen (specBreakList r bps))
+          | some bps => charsHex (cutTable (breakListSeen (specBreakList r bps)))
         "M " ++ mline ++ " | " ++ showTables mtabs ++ " ;; S " ++ sline ++ " | " ++ showTables stabs
 
 end Lace.Driver
